@@ -12,6 +12,8 @@ def gen(rng, tier):
         G, fam = common.random_connected_graph(rng, 1, 6 if tier == "quick" else 7, large_ok=True)
         n = G["n"]; q = rng.randrange(n); D = common.random_divisor(rng, G)
         if rng.random() < 0.15: G, D = common.thin_cut_game(rng); n = G["n"]; q = rng.randrange(n); fam = "thincut"
+        if rng.random() < 0.15 and n >= 2 and G["edges"]:      # a debt far deeper than the valence of the vertex that owes it (many borrowing moves at one vertex)
+            M = common.matrix(G); v = rng.choice([x for x in range(n) if x != q]); D = list(D); D[v] = -(10 * sum(M[v]) + rng.randint(1, 3 * sum(M[v]) + 5))
         if rng.random() < 0.08 and G["edges"]: G, D = common.scale_game(rng, G, D); fam = fam + "*2^k"
         if rng.random() < 0.4:   # burn-only: non-negative off q, small values so that both burning and non-burning happen
             M = common.matrix(G); D = [rng.randint(0, max(1, sum(M[v]))) for v in range(n)]; D[q] = rng.randint(-3, 3)
